@@ -261,6 +261,52 @@ def check_lifecycle(cname, ops):
     return out
 
 
+def check_evaluated_designs(cname, n, failing, constrained):
+    """Designs that went through the framework's own evaluation (Job), some of them after a transient failure, then offered
+    to an archive. The expected content is derived from the objective values and the constraint values themselves."""
+    from artap.algorithm import DummyAlgorithm
+    from artap.individual import Individual
+    from ..core import shim as shim_mod
+    from .c_support import make_problem, reset_ids
+    reset_ids()
+    calls = {"n": -1}
+
+    def before(problem, individual):
+        calls["n"] += 1
+        if calls["n"] in failing:
+            raise (TimeoutError if calls["n"] % 2 else RuntimeError)("transient")
+
+    def f(v):
+        return [v[0], 1.0 - v[0] + v[1]]          # v[1] = 0: all designs on one trade-off line
+
+    g = (lambda v: [v[0] - 0.55]) if constrained else None        # designs right of 0.55 violate
+    problem = make_problem(n_params=2, bounds=[[0.0, 1.0], [0.0, 0.0]], criteria=["minimize", "minimize"], f=f, g=g, before=before)
+    sh = shim_mod.install()
+    sh.reset(7, None)
+    batch = [Individual([(k + 0.5) / n, 0.0]) for k in range(n)]
+    desc = "%s archive fed with %d evaluated designs (transient failures at calls %r, constrained=%r)" % (cname, n, sorted(failing), constrained)
+    try:
+        DummyAlgorithm(problem).evaluate(batch)
+    except Exception as e:
+        return [("C04:evaluated:exception:%s" % type(e).__name__, "%s: evaluate raised %r" % (desc, e))]
+    finally:
+        sh.ctx = None
+    ar = make_archive(cname)
+    flags = [bool(ar.add(i)) for i in batch]
+    # reference from first principles: feasible designs (g < 0, or no constraints) beat infeasible ones, then Pareto on costs
+    def key(i):
+        feas = (not constrained) or (i.vector[0] - 0.55 < 0)
+        return tuple(float(c) for c in i.costs) + ((not feas),)
+    exp = nondominated([key(i) for i in batch])
+    got = set(key(m) for m in ar)
+    out = []
+    if got != exp:
+        out.append(("C04:evaluated:content:%s" % ("lost-nondominated" if exp - got else "kept-dominated"),
+                    "%s: archive holds %d designs, the non-dominated set of what was offered has %d; flags %r; markers in costs_signed %r" % (
+                        desc, len(got), len(exp), flags, sorted(set(i.costs_signed[-1] for i in batch), key=repr))))
+    return out
+
+
 def big_sequences(n):
     front = [(float(i), float(n - i), True) for i in range(n)]
     return {
@@ -336,6 +382,16 @@ def _shard(shard, col: Collector):
             for key, msg in check_lifecycle(cname, ops):
                 col.violation(key, "life", msg, {"comparator": cname, "ops": ops})
         col.sample({"kind": "life cycle of one archive", "comparator": cname, "operations": [list(map(str, LIFE_OPS[first])), "truncate 1", "add"], "depth": depth}, 1)
+    elif kind == "evaluated":
+        for cname in ("pareto",):        # re-sampled designs may fall within an epsilon box of another: only the exact comparator is judged
+            for n in (3, 4, 6):
+                for failing in ((), (0,), (1,), (1, 2), (0, 3), (2, 3, 4)):
+                    for constrained in (False, True):
+                        col.case()
+                        col.nontrivial(("evaluated", cname, n, failing, constrained))
+                        for key, msg in check_evaluated_designs(cname, n, set(failing), constrained):
+                            col.violation(key, "evaluated", msg, {"comparator": cname, "n": n, "failing": failing, "constrained": constrained})
+        col.sample({"kind": "designs evaluated by the framework (some after a transient failure) offered to an archive"}, 1)
     elif kind == "big":
         # archives far larger than the reachable states of the small alphabets: long fronts offered in three orders, with
         # dominated, duplicated and dominating points mixed in
@@ -396,6 +452,8 @@ def replay(sub, case):
         return check_two_archives(case["c1"], case["c2"], [t(x) for x in case["seq1"]], [t(x) for x in case["seq2"]])
     if sub == "hist":
         return check_history(case["comparator"], [t(s) for s in case["seq"]])
+    if sub == "evaluated":
+        return check_evaluated_designs(case["comparator"], case["n"], set(case["failing"]), case["constrained"])
     if sub == "big":
         return check_history(case["comparator"], big_sequences(case["n"])[case["order"]])
     if sub == "life":
@@ -423,6 +481,7 @@ def run(tier, seed):
     for cname in ("pareto", "eps01", "default"):
         for n in (31, 32, 33, 63, 64, 65, 100, 128, 129, 256, 257) + ((1000,) if tier == "thorough" else ()):
             shards.append(("big", cname, n))
+    shards.append(("evaluated",))
     shards += [("default", ("V3x2F", "B3")), ("default", ("B3", "V3x2F")), ("default", ("NEAR", "T3"))]
     for c1, c2 in (("pareto", "pareto"), ("pareto", "eps01"), ("eps01", "eps05"), ("eps05", "pareto")):
         for aname in ("V3x2F", "B3"):
